@@ -18,7 +18,7 @@ from ..interp import Frame, Interp, Phi, Ref, Tup, vtext
 from ..nf import NF
 from ..nfdomain import NFDomain
 from ..paths import enumerate_paths, path_calls
-from ..program import AnalysisError, Program, bind_args, unparse, short, walk_no_nested
+from ..program import AnalysisError, Program, bind_args, unparse, short, walk_no_nested, increment_of
 from ..report import Report
 from .. import roms
 
@@ -414,11 +414,11 @@ def step_tables(prog: Program, rep: Report) -> None:
                 init = (st.targets[0].id, ast.literal_eval(st.value))
             except Exception:
                 pass
-            if init and any(isinstance(n, ast.AugAssign) and unparse(n.target) == init[0] for n in ast.walk(inner)):
+            if init and any((increment_of(n) or ("", 0))[0] == init[0] for n in ast.walk(inner)):
                 counter = init
-    incs = [n for n in inner.body if isinstance(n, ast.AugAssign)]
+    incs = [n for n in inner.body if increment_of(n) is not None]
     stepdef = [n for n in inner.body if isinstance(n, ast.Assign) and isinstance(n.value, ast.Subscript) and unparse(n.value.value) == "steps"]
-    ok = counter is not None and len(incs) == 1 and unparse(incs[0].value) == "1" and isinstance(incs[0].op, ast.Add) and len(stepdef) == 1
+    ok = counter is not None and len(incs) == 1 and increment_of(incs[0]) == (counter[0], 1) and len(stepdef) == 1
     if ok:
         inc_first = inner.body.index(incs[0]) < inner.body.index(stepdef[0])
         ok = unparse(stepdef[0].value.slice) == counter[0] and ((inc_first and counter[1] == -1) or (not inc_first and counter[1] == 0))
@@ -490,6 +490,7 @@ AUDIT = [
     Mut("reversal-u-only", R, "            return sample3DUV(-U, -V, X - i0, Y - j0, self.K, self.A, method=method)", "            return sample3DUV(-U, V, X - i0, Y - j0, self.K, self.A, method=method)", rule="R03.3"),
     Mut("frame-idx-counter", R, "            frame_idx[step] = i", "            frame_idx[step] = step_counter", rule="R03.7"),
     Mut("counter-start", R, "    step_counter = -1\n", "    step_counter = 0\n", rule="R03.7"),
+    Mut("benign-counter-form", R, "            step_counter += 1\n", "            step_counter = step_counter + 1\n", expect="silent"),
     Mut("benign-local-fields", R, "        if step in self.steps:  # No time interpolation\n            self.fields[\"u\"] = self.fields[\"u_new\"]", "        if step in self.steps:  # No time interpolation\n            logger.debug('frame step')\n            self.fields[\"u\"] = self.fields[\"u_new\"]", expect="silent"),
     Mut("benign-has-next-spelling", R, "            if i + 1 < len(self.steps):  # Need new fields", "            if i < len(self.steps) - 1:  # Need new fields", expect="silent"),
     Mut("benign-slope-form", R, '                    self.fields["dU"] = (\n                        self.fields["u_new"] - self.fields["u"]\n                    ) / stepdiff', '                    self.fields["dU"] = (\n                        self.fields["u_new"] / stepdiff - self.fields["u"] / stepdiff\n                    )', expect="silent"),
